@@ -442,7 +442,9 @@ func (w *world) alterations(valid *blockchain.Block, script *exh.Script) {
 		{"impliesMaxPrevotes flipped", func(h *blockchain.BlockHeader) { h.ImpliesMaxPrevotes = !h.ImpliesMaxPrevotes }},
 		{"validatorsHash flipped", func(h *blockchain.BlockHeader) { h.ValidatorsHash = flip(h.ValidatorsHash) }},
 		{"aggregateCommit.height+1", func(h *blockchain.BlockHeader) { h.AggregateCommit.Height++ }},
-		{"aggregateCommit.bits set", func(h *blockchain.BlockHeader) { h.AggregateCommit.AggregationBits = flip(h.AggregateCommit.AggregationBits) }},
+		{"aggregateCommit.bits set", func(h *blockchain.BlockHeader) {
+			h.AggregateCommit.AggregationBits = flip(h.AggregateCommit.AggregationBits)
+		}},
 		{"aggregateCommit.signature set", func(h *blockchain.BlockHeader) {
 			h.AggregateCommit.CertificateSignature = flip(append(h.AggregateCommit.CertificateSignature, bytes.Repeat([]byte{7}, 96)...)[:96])
 		}},
@@ -555,10 +557,40 @@ func (w *world) alterations(valid *blockchain.Block, script *exh.Script) {
 				sz += t.Size()
 			}
 			room := int(w.n.Opt.MaxTxLen) - sz
-			if room < 200 || room > 14000 {
+			// fill with large transactions, then one whose encoded size makes the total exactly the limit
+			for k := 0; room > 14200; k++ {
+				t := exh.MakeTx(uint64(880+k), 13000)
+				b.Transactions = append(b.Transactions, t)
+				room -= t.Size()
+			}
+			if room < 200 {
 				return false
 			}
-			// find the parameter length that makes the encoded size fit exactly
+			for pl := room - 190; pl < room; pl++ {
+				t := exh.MakeTx(997, pl)
+				if t.Size() == room {
+					b.Transactions = append(b.Transactions, t)
+					fixRoots(b)
+					resignB(b)
+					return true
+				}
+			}
+			return false
+		}},
+		{"payload: size one byte above the limit, roots and signature consistent", func(b *blockchain.Block) bool {
+			sz := 0
+			for _, t := range b.Transactions {
+				sz += t.Size()
+			}
+			room := int(w.n.Opt.MaxTxLen) - sz + 1
+			for k := 0; room > 14200; k++ {
+				t := exh.MakeTx(uint64(880+k), 13000)
+				b.Transactions = append(b.Transactions, t)
+				room -= t.Size()
+			}
+			if room < 200 {
+				return false
+			}
 			for pl := room - 190; pl < room; pl++ {
 				t := exh.MakeTx(997, pl)
 				if t.Size() == room {
